@@ -64,7 +64,8 @@ pub fn select_suites<'a>(all: &'a [Box<dyn suite::Suite>], sel: &str, seed: u64)
     match sel {
         "quick" => {
             let mut v: Vec<&dyn suite::Suite> = test.iter().filter(|s| diag(s)).copied().collect();
-            let mixed: Vec<&dyn suite::Suite> = test.iter().filter(|s| !diag(s)).copied().collect();
+            // mixed suites in which the OPRF group's and the KE group's lengths really differ
+            let mixed: Vec<&dyn suite::Suite> = test.iter().filter(|s| !diag(s) && s.lens().nok != s.lens().nsk).copied().collect();
             for k in 0..2 {
                 v.push(mixed[((seed as usize) * 2 + k * 7) % mixed.len()]);
             }
